@@ -4,6 +4,7 @@ package main
 import (
 	"fmt"
 	"os"
+	"strings"
 )
 
 func usage() {
@@ -22,6 +23,8 @@ func main() {
 		cmdSmoke(os.Args[2:])
 	case "c19":
 		cmdC19(os.Args[2:])
+	case "c02", "c03", "c05", "c12":
+		cmdRouter(strings.ToUpper(os.Args[1]), os.Args[2:])
 	case "c15":
 		cmdC15(os.Args[2:])
 	case "c17":
